@@ -77,8 +77,13 @@ def validate_tjp_file(tjp_path: str) -> Path:
     """
     path = Path(tjp_path)
 
-    if not path.exists():
-        raise FileNotFoundError(f"File not found: {tjp_path}")
+    try:
+        found = path.exists()
+    except OSError:
+        # e.g. a name longer than the file system allows: no such file either
+        found = False
+    if not found:
+        raise FileNotFoundError(f"File not found: {tjp_path[:200]}")
 
     if not path.is_file():
         raise FileNotFoundError(f"Not a file: {tjp_path}")
@@ -88,7 +93,8 @@ def validate_tjp_file(tjp_path: str) -> Path:
 
     # Nothing but white space counts as empty, as it does for input on stdin
     try:
-        blank = not path.stat().st_size or not path.read_bytes().strip()
+        # (decoded first: str.strip() knows the non-ASCII blanks stdin input is stripped of)
+        blank = not path.stat().st_size or not path.read_bytes().decode("utf-8", "ignore").strip()
     except OSError as e:
         raise FileNotFoundError(f"File is not readable: {tjp_path} ({e})") from None
     if blank:
